@@ -867,6 +867,18 @@ pub fn validate(case: &Case) -> Result<(), String> {
             set_only("from_store")?;
             script.outcome().map(|_| ())
         }
+        Op::Filter { pred, method } => {
+            if !case.is_map {
+                return Err("filter exists for variant idmap only".into());
+            }
+            if !FILTER_PREDS.contains(&pred.as_str()) {
+                return Err(format!("unknown predicate {:?}", pred));
+            }
+            if build_alt::<Map>(&O::empty(), method, 0).is_none() {
+                return Err(format!("build method {:?} is not applicable to idmap", method));
+            }
+            Ok(())
+        }
         _ => Ok(()),
     }
 }
@@ -1034,6 +1046,7 @@ fn run_generic<S: Sut>(case: &Case) -> Result<(), Failure> {
         Op::NonMut { which } => run_nonmut(&case.state, other_o, which),
         Op::FromIdMap { method } => run_from_idmap(&case.state, method, case.universe),
         Op::FromStore(script) => run_from_store(script),
+        Op::Filter { pred, method } => run_filter(&case.state, pred, method, case.universe),
     }
 }
 
@@ -1110,7 +1123,57 @@ fn actual_generic<S: Sut>(case: &Case) -> J {
             }
             Err(_) => J::Null,
         },
+        Op::Filter { pred, method } => match build_alt::<Map>(&case.state, method, case.universe) {
+            Some(map) => read_id_map(&apply_filter(&map, pred), true).to_json(true),
+            None => J::Null,
+        },
     }
+}
+
+/// `IdMap::filter` with the predicate named `pred`, decided on the attribute
+/// list the map hands to the closure.
+fn apply_filter(map: &Map, pred: &str) -> Map {
+    map.filter(|attrs: &[ContentAttribute<u8>]| match pred {
+        "true" => true,
+        "false" => false,
+        "has_a" => attrs.iter().any(|a| a.name() == "a"),
+        _ => attrs.len() == 1,
+    })
+}
+
+fn run_filter(o: &O, pred: &str, method: &str, universe: u32) -> Result<(), Failure> {
+    let map: Map = match build_alt(o, method, universe) {
+        Some(m) => m,
+        None => return Ok(()),
+    };
+    check_result(&map, o, 0, &format!("IdMap::insert (build:{})", method))?;
+    // the surviving points keep their attribute sets
+    let mut exp = *o;
+    for c in exp.0.iter_mut() {
+        for v in c.iter_mut() {
+            if *v != 0 && !filter_pred(pred, *v) {
+                *v = 0;
+            }
+        }
+    }
+    let api = format!("IdMap::filter({})", pred);
+    let got = apply_filter(&map, pred);
+    // points and attribute sets, canonical form, no client entry without
+    // ranges, is_empty(), == the map built by inserting the surviving pieces,
+    // encode_v1 / decode_v1
+    check_result(&got, &exp, 1, &api)?;
+    // and the other way round: inserting the surviving pieces one by one
+    let pieces: Map = build_alt(&exp, "desc_singles", universe).unwrap();
+    if got != pieces || pieces != got {
+        return Err(property_failure(
+            &api,
+            &exp,
+            "result == map built by inserting the surviving pieces (PartialEq)",
+            read_id_map(&got, true).to_json(true),
+        ));
+    }
+    // filter borrows the map
+    check_result(&map, o, 0, &format!("{} (map afterwards)", api))
 }
 
 /// `attributions([s,e))` must partition the block range exactly into maximal
